@@ -72,6 +72,7 @@ inline double model(int kind, const double *x, int d, int k){
         case 1: for(int j=0;j<d;j++) s += (0.7 + 0.3 * j + 0.1 * k) * x[j]; return s;       // affine (member of every reproduced space with linears)
         case 2: return 1.0 + 0.5 * k;                                                     // constant
         case 3: for(int j=0;j<d;j++) s += std::exp(-(1.5 + k) * (x[j] - 0.3) * (x[j] - 0.3)) * (j + 1); return s; // peaked (drives adaptivity)
+        case 5: return model(0, x, d, k) * ((k == 0) ? 0.01 : 3.0 + k);                  // outputs of very different magnitude (per-output normalisation matters)
         default: for(int j=0;j<d;j++) s += std::cos(2.0 * M_PI * x[j] * (j + 1)) + 0.5 * std::sin(2.0 * M_PI * x[j]) * (k + 1); return s; // periodic
     }
 }
